@@ -86,7 +86,9 @@ t0n_addr_chk(void *base, size_t off, size_t width)
 		(unsigned long)off, (unsigned long)width, (unsigned long)end, (unsigned long)sizeof(T0N_CTXT));
 #endif
 	CHECK(base == (void *)t0n_the_ctx, "T0_ADDR: base is the context");
-	CHECK(end != 0, "T0_ADDR: context-offset operand lies inside a field of the context");
+	/* width 0 = the pointer is handed to a string function, whose region is checked there:
+	   a one-past-the-end pointer of a field is then acceptable (zero-length region) */
+	CHECK(end != 0 || (width == 0 && off > 0 && t0n_field_end(off - 1) == off), "T0_ADDR: context-offset operand lies inside a field of the context");
 	CHECK(end == 0 || width <= end - off, "T0_ADDR: access through a context-offset operand stays inside the field it starts in");
 #endif
 	return (unsigned char *)base + off;
@@ -136,8 +138,7 @@ c05_need_w(void *p, size_t n)
 {
 #if !defined(NATIVE_REPLAY) && !defined(C05_EFFECT)
 	CHECK(n == 0 || __CPROVER_w_ok(p, n), "region handed to a callback / callee is writable");
-	t0n_region_chk(p, n, 1);
-	if (n > 0) __CPROVER_havoc_slice(p, n);
+	t0n_region_chk(p, n, 1);    /* contents left at their unconstrained pre-state value (see C05_pre.h) */
 #else
 	(void)p; (void)n;
 #endif
